@@ -58,7 +58,7 @@ RAWC = {
     "code": ("esc", lambda i: f"```html\n{S(i)}\n```\n"),
     "rawdir-latex": ("rawnode", lambda i: f"```{{raw}} latex\n{S(i)}\n```\n"),
     "subst-html": ("raw", lambda i: "{{rawsub}}\n"),
-    "subst-rst-ref": ("raw", lambda i: "{{rawsub}}\n\n```{eval-rst}\nsee |rawsub| here\n```\n"),  # the MyST substitution is not an rST substitution definition
+    "subst-rst-ref": ("raw", lambda i: "inline {{rawsub}} use\n\n{{rawsub}}\n\n```{eval-rst}\nsee |rawsub| here\n```\n"),  # the MyST substitution is not an rST substitution definition
     "title-attr": ("esc", lambda i: f"[l](u '{S(i)}')\n"),
     "comment": ("rawnode-html", lambda i: f"<!-- {S(i)} -->\n"),
     "footnote-html": ("raw", lambda i: f"ref[^f{i}]\n\n[^f{i}]: note with {S(i)} and a\\\n  break\n"),
